@@ -453,13 +453,8 @@ def _handle_state(F, n):
     return None
 
 
-def r09_8(chk, P, E):
-    chk.rule('R09.8', 'a link\'s table entries come from that link\'s header fetch: wherever a value stored into a per-link table of '
-             'the handle derives (through locals, reaching definitions; through parameters, every call site) from a read of the '
-             'handle\'s stream position vf->offset or stream serial number vf->os.serialno, the nearest preceding call that may '
-             'write that state (K3 write sets for the position; transitive callers of ogg_stream_reset_serialno/_init/_clear '
-             'for the serial number) is the header fetch _fetch_headers (or there is none since function entry): the read '
-             'sees this link\'s header fetch, not a later page fetch or a deeper recursion level')
+def _prov_env(chk, P, E):
+    """last-writer / provenance machinery shared by R09.8 and R09.9 -> (H, pv, expand)"""
     import prov
     H = P.need('_fetch_headers')
     # who may write the tracked state
@@ -522,6 +517,17 @@ def r09_8(chk, P, E):
                 out |= expand(G, sub, depth + 1, trail + (f'{F.params[a[1]]["name"]} <- {G.name}:{G.loc(c)}',))
         return out
 
+    return H, pv, expand
+
+
+def r09_8(chk, P, E):
+    chk.rule('R09.8', 'a link\'s table entries come from that link\'s header fetch: wherever a value stored into a per-link table of '
+             'the handle derives (through locals, reaching definitions; through parameters, every call site) from a read of the '
+             'handle\'s stream position vf->offset or stream serial number vf->os.serialno, the nearest preceding call that may '
+             'write that state (K3 write sets for the position; transitive callers of ogg_stream_reset_serialno/_init/_clear '
+             'for the serial number) is the header fetch _fetch_headers (or there is none since function entry): the read '
+             'sees this link\'s header fetch, not a later page fetch or a deeper recursion level')
+    H, pv, expand = _prov_env(chk, P, E)
     n = 0
     for F in P.functions():
         if not F.file.endswith('vorbisfile.c'):
@@ -555,6 +561,45 @@ def r09_8(chk, P, E):
     return n
 
 
+def r09_9(chk, P, E):
+    chk.rule('R09.9', 'the link scan never skips the start of a link: the parameter of _bisect_forward_serialno that carries the '
+             '"searched up to here" lower bound of the bisection (the parameter the function advances with vf->offset inside its '
+             'search loop) receives, at every call site, a value that derives only from per-link data offsets or from reads of '
+             'vf->offset that see the link\'s header fetch as last writer.  A position read after a later page fetch '
+             '(_initial_pcmoffset consumes a page, and when the link has no audio that page is the next link\'s first) can lie '
+             'beyond the start of the following link, whose header fetch then fails')
+    H, pv, expand = _prov_env(chk, P, E)
+    F = P.need('_bisect_forward_serialno')
+    lower = set()
+    for e in F.nodes('assign'):
+        nd = F.ex[e]
+        l = F.ex[F.strip_casts(nd['c'][0])]
+        if nd['op'] == '=' and l['k'] == 'ref' and l['decl'].get('kind') == 'param' and _handle_state(F, F.strip_casts(nd['c'][1])) == 'offset':
+            lower.add(l['decl']['id'])
+    chk.require(len(lower) == 1, f'_bisect_forward_serialno: lower-bound parameter not identified ({len(lower)} candidates)')
+    pid = next(iter(lower))
+    pi = [i for i, p_ in enumerate(F.params) if p_['id'] == pid][0]
+    n = 0
+    for G in P.functions():
+        for c in G.calls(F.name):
+            if P.key(F) not in P.call_targets(G, c) or pi >= len(G.ex[c]['c']):
+                continue
+            arg = G.ex[c]['c'][pi]
+            atoms = expand(G, pv(G).prov_at(arg, c), 0, ())
+            st = [a for a in atoms if a[0] == 'state']
+            other = [a for a in atoms if a[0] not in ('state', 'table', 'param') ]
+            bad = [a for a in st if not (a[2] == 'entry' or (a[2][0] == 'call' and a[2][1] == H.name))]
+            n += 1
+            chk.ob('R09.9', G.name, f'bisection-lower-bound-inside-the-link@{G.loc(c)}', not bad and not other, G.where(c),
+                   f'{F.params[pi]["name"]} <- `{G.s(arg)}`: ' + ('; '.join(sorted({f"vf->{a[1]} (line {a[3]}) sees {a[2] if a[2] == 'entry' else a[2][1]}" for a in st})) or
+                                                               'a per-link data offset') if not bad and not other else
+                   f'{F.params[pi]["name"]} <- `{G.s(arg)}`: ' + (f'reads vf->{bad[0][1]} (line {bad[0][3]}) after {bad[0][2][1] if bad[0][2][0] == "call" else "a store"} '
+                   f'(line {bad[0][2][-1]}) moved the stream on; when the link just found has no audio page the position is already '
+                   'past the first page of the next link and the next level cannot find that link\'s start' if bad else
+                   f'derives from {sorted(map(str, other))}'))
+    return n
+
+
 def run(chk, P):
     r09_7(chk, P)
     chk.floor('R09.7', 4)
@@ -573,6 +618,8 @@ def run(chk, P):
     P._effects = E
     r09_8(chk, P, E)
     chk.floor('R09.8', 3)
+    r09_9(chk, P, E)
+    chk.floor('R09.9', 2)
     import frames
     frames.c09(chk, P)
     chk.trusted += ['clang 14 front end', 'exact evaluation of subscript expressions for L = 0,1,2 (linear forms)', 'K4 symbolic bounds']
